@@ -241,6 +241,23 @@ func c10(e *Env) {
 		essentialPeers = append(essentialPeers, "dse_version")
 	}
 	checkedSelects := 0
+	idOf, addrOf := map[string]string{}, map[string]string{}
+	noteID := func(where string, row c10row) bool {
+		a, id := fmt.Sprint(row["rpc_address"]), fmt.Sprint(row["host_id"])
+		if row["rpc_address"] == nil || row["host_id"] == nil {
+			return true
+		}
+		if prev, ok := idOf[a]; ok && prev != id {
+			fail("host-id-not-a-function-of-address", fmt.Sprintf("%s: address %s has host_id %s, elsewhere in this run it has %s", where, a, id, prev))
+			return false
+		}
+		if prev, ok := addrOf[id]; ok && prev != a {
+			fail("host-id-shared-by-two-addresses", fmt.Sprintf("%s: host_id %s belongs to %s, elsewhere in this run to %s", where, id, a, prev))
+			return false
+		}
+		idOf[a], addrOf[id] = id, a
+		return true
+	}
 	for _, in := range insts {
 		who := fmt.Sprintf("proxy %s (dc %q)", in.self.addr, in.self.dc)
 		lnames, lrows, bad := c10select(w, in.cl, "SELECT * FROM system.local")
@@ -287,6 +304,42 @@ func c10(e *Env) {
 		if u, ok := in.local["host_id"].(primitive.UUID); !ok || u[6]>>4 != 3 || u[8]>>6 != 2 {
 			fail("host-id-not-v3", fmt.Sprintf("%s: host_id %v is not a version-3 UUID", who, in.local["host_id"]))
 			return
+		}
+		// host ids are a function of the address (and distinct addresses have distinct ids),
+		// whichever proxy or connection presents the node
+		if !noteID(who+" system.local", in.local) {
+			return
+		}
+		if in.self.addr == "" {
+			// No rpc-address: the proxy advertises the address each client reached it through. A
+			// second client comes in through another address of the proxy's host.
+			via := []string{"10.77.0.9", "192.168.5.4", "fd00::77"}[c.Choose("c10via", 3)]
+			cl2 := w.ConnectClientVia(in.pi, primitive.ProtocolVersion4, via)
+			st2 := cl2.Send("startup", "", message.NewStartup(), nil)
+			if !w.RunUntil(func() bool { return len(st2.Replies) > 0 }, time.Minute) {
+				return
+			}
+			_, rows2, bad2 := c10select(w, cl2, []string{"SELECT * FROM system.local", "SELECT host_id, rpc_address FROM system.local", "SELECT rpc_address, host_id, key FROM system.local"}[c.Choose("c10viasel", 3)])
+			if w.Stopped() {
+				return
+			}
+			if bad2 != "" || len(rows2) != 1 {
+				fail("local-read-failed", fmt.Sprintf("%s, client connected through %s: %s (%d rows)", who, via, bad2, len(rows2)))
+				return
+			}
+			if got := fmt.Sprint(rows2[0]["rpc_address"]); got != net.ParseIP(via).String() {
+				fail("local-value-wrong(rpc_address)", fmt.Sprintf("%s, client connected through %s: system.local.rpc_address is %s", who, via, got))
+				return
+			}
+			if !noteID(fmt.Sprintf("%s system.local of the client connected through %s", who, via), rows2[0]) {
+				return
+			}
+			// and the first client still sees its own
+			_, rows1, _ := c10select(w, in.cl, "SELECT rpc_address, host_id FROM system.local")
+			if len(rows1) == 1 && !noteID(who+" system.local (first client again)", rows1[0]) {
+				return
+			}
+			e.Res.Stats["probe.c10.second_listen_address"]++
 		}
 		pnames, prows, bad := c10select(w, in.cl, "SELECT * FROM system.peers")
 		if w.Stopped() {
@@ -340,6 +393,9 @@ func c10(e *Env) {
 					fail("peers-value-wrong("+col+")", fmt.Sprintf("%s: system.peers[%s].%s is %v, the configuration says %v", who, cfgp.addr, col, row[col], wv))
 					return
 				}
+			}
+			if !noteID(who+" system.peers", row) {
+				return
 			}
 			if u, ok := row["host_id"].(primitive.UUID); !ok || u[6]>>4 != 3 {
 				fail("host-id-not-v3", fmt.Sprintf("%s: peers host_id %v is not a version-3 UUID", who, row["host_id"]))
